@@ -52,7 +52,7 @@ type c08Task struct {
 }
 
 type c08Op struct {
-	Op string `json:"op"` // enq | rel | relenq | stop
+	Op string `json:"op"` // enq | rel | relenq (release, then Run) | enqrel (Run in flight, then release) | burst (release all parked, Run the next I+1 tasks back to back) | stop
 	I  int    `json:"i,omitempty"`
 	Y  int    `json:"y,omitempty"` // relenq: Gosched calls between release and Run
 }
@@ -199,8 +199,12 @@ func c08Gen(rt *rapid.T) c08Case {
 			op.Op = "enq"
 		case k < 13:
 			op = c08Op{Op: "rel", I: rapid.IntRange(0, 7).Draw(rt, "i")}
-		case k < 19:
+		case k < 16:
 			op = c08Op{Op: "relenq", I: rapid.IntRange(0, 7).Draw(rt, "i"), Y: rapid.IntRange(0, 3).Draw(rt, "y")}
+		case k < 18:
+			op = c08Op{Op: "enqrel", I: rapid.IntRange(0, 7).Draw(rt, "i"), Y: rapid.IntRange(0, 3).Draw(rt, "y")}
+		case k < 19:
+			op = c08Op{Op: "burst", I: rapid.IntRange(0, 2).Draw(rt, "i")}
 		default:
 			if ctlStop {
 				op.Op = "stop"
@@ -429,6 +433,7 @@ func c08Run(c *c08Case, st *vstat.Stats) error {
 	if c.Mode == "free" {
 		body = h.freeBody
 	}
+	var during func()
 	doRun := func(id int) {
 		// label: depends on >=2 distinct unfinished predecessors at enqueue time
 		preds := 0
@@ -449,6 +454,10 @@ func c08Run(c *c08Case, st *vstat.Stats) error {
 			close(done)
 		})
 		runPending = done
+		if during != nil {
+			during()
+			during = nil
+		}
 		// Run never blocks in a healthy executor (channel capacity = items)
 		t0 := time.Now()
 		for !runReturned() {
@@ -515,7 +524,24 @@ func c08Run(c *c08Case, st *vstat.Stats) error {
 					continue
 				}
 				doRelease(pl[op.I%len(pl)])
-			case "relenq":
+			case "burst":
+				pl := h.parked()
+				if next >= n || !runReturned() {
+					st.Skip("burst-inapplicable")
+					continue
+				}
+				for _, id := range pl {
+					if c08ReaderOfWriter(c.Tasks[id], c.Tasks[next]) {
+						handoff = true
+					}
+					doRelease(id)
+				}
+				for b := 0; b <= op.I && next < n && runReturned(); b++ {
+					doRun(next)
+					next++
+				}
+				labels["op-burst"] = true
+			case "relenq", "enqrel":
 				pl := h.parked()
 				if len(pl) == 0 || next >= n || !runReturned() {
 					st.Skip("relenq-inapplicable")
@@ -538,13 +564,22 @@ func c08Run(c *c08Case, st *vstat.Stats) error {
 				if c08ReaderOfWriter(c.Tasks[id], c.Tasks[next]) {
 					handoff = true
 				}
-				doRelease(id)
-				for y := 0; y < op.Y; y++ {
-					runtime.Gosched()
+				if op.Op == "relenq" {
+					doRelease(id)
+					for y := 0; y < op.Y; y++ {
+						runtime.Gosched()
+					}
+				} else {
+					during = func() {
+						for y := 0; y < op.Y; y++ {
+							runtime.Gosched()
+						}
+						doRelease(id)
+					}
 				}
 				doRun(next)
 				next++
-				labels["op-relenq"] = true
+				labels["op-"+op.Op] = true
 			case "stop":
 				if ctlStopped {
 					st.Skip("stop-twice")
@@ -810,6 +845,10 @@ func c08RenderOps(ops []c08Op) string {
 			fmt.Fprintf(&sb, "r%d", o.I)
 		case "relenq":
 			fmt.Fprintf(&sb, "x%d", o.I)
+		case "enqrel":
+			fmt.Fprintf(&sb, "y%d", o.I)
+		case "burst":
+			fmt.Fprintf(&sb, "B%d", o.I)
 		case "stop":
 			sb.WriteByte('S')
 		}
